@@ -257,21 +257,23 @@ def run(ctx):
         for m in EXTRACTORS:
             f = facts.fn(GLOB + "::" + m)
             eb = ExprBuilder(f)
-            somes = [bb for bb, j, st in f.stmts() if st["k"] == "assign" and st["place"]["l"] == 0 and st["rv"]["k"] == "agg"
-                     and st["rv"].get("variant") == "Some"]
-            sw = cond_switches(f, lambda e: W.field_of(e, GOPT, "case_insensitive"), eb)
-            if somes and sw and not guarded(f, somes, sw, False):
-                r.ok("case|" + m, "%d Some return(s) only when !case_insensitive" % len(somes), fn=f)
+            # by value: with opts.case_insensitive set the extractor answers None, whatever it is built from
+            from ..flow import table as _table, ret_set as _ret_set
+            got = set()
+            for row, sx in _table(facts, f, fields={(GOPT, "case_insensitive"): [I(1)]}):
+                got = _ret_set(sx)
+            reads = '"case_insensitive"' in __import__("json").dumps(f.mir)
+            if reads and got == {V("None", None)}:
+                r.ok("case|" + m, "case_insensitive ⇒ None", fn=f)
             else:
                 r.bad("case|" + m, "Glob::%s can produce a literal strategy for a case-insensitive glob" % m, fn=f, construct=m)
         bl = facts.fn(GLOB + "::basename_literal")
         bt = bl.calls_to(GLOB + "::basename_tokens")
-        somes = [bb for bb, j, st in bl.stmts() if st["k"] == "assign" and st["place"]["l"] == 0 and st["rv"]["k"] == "agg"
-                 and st["rv"].get("variant") == "Some"]
-        if bt and somes and all(C.dominates(bl, bt[0].bb, s) for s in somes):
-            s = seed_after_call(bl, bt[0], V("None", None))
-            vals = {x for v_ in s.ret_values.values() for x in value_set(v_)}
-            if vals == {V("None", None)}:
+        if bt:
+            got = set()
+            for row, sx in _table(facts, bl, calls={"Glob::basename_tokens": [V("None", None)]}):
+                got = _ret_set(sx)
+            if got == {V("None", None)}:
                 r.ok("case|basename_literal", "basename_literal only through basename_tokens()?", fn=bl)
             else:
                 r.bad("case|basename_literal", "basename_literal ignores basename_tokens() == None", fn=bl)
@@ -283,7 +285,14 @@ def run(ctx):
             sw = cond_switches(f, lambda e: W.field_of(e, GOPT, "literal_separator"), eb)
             key = "sep|" + m
             if not sw:
-                r.bad(key, "Glob::%s skips a wildcard token without consulting literal_separator" % m, fn=f, construct=m)
+                # the iterator spelling: `tokens.iter().all(|t| match t { Any | ZeroOrMore => literal_separator, .. })`
+                ac = all_closure(facts, f)
+                bad_edge = I(1) if pol else I(0)
+                if ac is not None and ac[1] == {V("None", None)} and \
+                        all(closure_verdict(facts, ac[0], V(tk_), {(GOPT, "literal_separator"): bad_edge}) == {I(0)} for tk_ in ("Any", "ZeroOrMore")):
+                    r.ok(key, "%sliteral_separator ⇒ None (a `*`/`?` may not be skipped)" % ("" if pol else "!"), fn=f)
+                else:
+                    r.bad(key, "Glob::%s skips a wildcard token without consulting literal_separator" % m, fn=f, construct=m)
                 continue
             good = False
             for bb, te, fe, e in sw:
@@ -369,6 +378,19 @@ def run(ctx):
                         if "Literal" in arms and any(bb in C.reach(f, [h]) for h in hdrs) and
                         any(h in C.reach(f, [bb]) for h in hdrs)]
             if not lit_arms:
+                # the iterator spelling: the per-token predicate of `.all(..)` says no to Literal(ch), and no means None
+                ac = all_closure(facts, f)
+                if ac is not None and ac[1] == {V("None", None)}:
+                    r.ok(m + "|loop", "per-token predicate handed to Iterator::all; a token it rejects ⇒ None", fn=f)
+                    for ch in chars:
+                        key = "%s|%s" % (m, {".": "dot", "/": "slash"}[ch])
+                        if closure_verdict(facts, ac[0], V("Literal", I(ord(ch)))) == {I(0)} and \
+                                closure_verdict(facts, ac[0], V("Literal", I(ord("a")))) == {I(1)}:
+                            r.ok(key, "a literal %r is rejected (and other literals are not)" % ch, fn=f)
+                        else:
+                            r.bad(key, "Glob::%s accepts a literal %r into its basename-scoped literal: the set strategy compares it with a "
+                                  "piece of the basename and can never match, while the glob alone still matches" % (m, ch), fn=f, construct=m)
+                    continue
                 r.bad(m + "|loop", "anchor-missing: Glob::%s has no per-token match with a Literal arm inside its loop" % m, fn=f)
                 continue
             for ch in chars:
@@ -532,6 +554,35 @@ def run(ctx):
                 else:
                     r.bad("sep|Class", "Token::Class is translated without consulting literal_separator: a negated class such as "
                           "[!b] matches '/', so the gitignore line /a[!b]c ignores a/c (git does not)", fn=f, construct="Class")
+
+
+def all_closure(facts, f):
+    """The per-token predicate of `tokens.iter().all(|t| ..)` in f together with what f answers when it says no:
+    (closure Fn, ret set of f under all() == false) or None."""
+    from ..flow import table as _table, ret_set as _ret_set
+    eb = ExprBuilder(f)
+    for c in f.calls():
+        if c.path.endswith("Iterator::all"):
+            for x in walk(eb.operand(c.args[1])):
+                if x.k == "closure" and x[1] in facts.fns:
+                    got = set()
+                    for row, sx in _table(facts, f, calls={"Iterator::all": [I(0)]}):
+                        got = _ret_set(sx)
+                    return facts.fns[x[1]], got
+    return None
+
+
+def closure_verdict(facts, g, token, fields=None):
+    """What the per-token predicate g answers for one token value (abstract) under a field row."""
+    def fm(owner, name):
+        return (fields or {}).get((owner, name))
+    env = {}
+    Sccp._write(env, (2, ()), token)
+    sx = Sccp(g, field_model=fm).run([(0, env)])
+    out = set()
+    for v in sx.ret_values.values():
+        out |= set(value_set(v))
+    return out
 
 
 def features(f):
